@@ -73,6 +73,8 @@ func checkC01(c *Ctx) {
 	c.getSessionContract()
 	// a packet that wraps around the end of the outgoing ring is encoded into a scratch buffer that holds it
 	c.scratchHoldsTheMessage()
+	// every filter of a SUBSCRIBE / UNSUBSCRIBE is decoded: the decode loops run to the end of the packet
+	c.decodeLoopConservation()
 }
 
 // fanOut: the delivery loop of a publish. The rule works on the supergraph of fn with its
